@@ -147,6 +147,9 @@ impl CompactionWorker {
                         }
                     }
 
+                    #[cfg(feature = "verif")]
+                    crate::verif::pause("worker.idle", &[]);
+
                     if database_state.is_shutting_down.load(Ordering::Acquire) {
                         log::info!("Compaction thread terminated.");
                         break;
